@@ -26,6 +26,14 @@ def main():
     out = {}
     for s in seeds:
         d = os.path.join(HERE, "seeded", s)
+        try:
+            meta = json.load(open(os.path.join(d, "meta.json")))
+        except (OSError, ValueError):
+            meta = {}
+        if meta.get("status") == "obsolete":
+            out[s] = {"applied": False, "obsolete": meta.get("obsolete_because", "")}
+            print("%-7s OBSOLETE" % s)
+            continue
         patch = os.path.join(d, "patch.rebased.diff") if os.path.exists(os.path.join(d, "patch.rebased.diff")) else os.path.join(d, "patch.diff")
         r = sh("git -C %s apply %s" % (REPO, patch))
         if r.returncode != 0:
